@@ -80,8 +80,17 @@ def gen_history(rng, t, enc, nops):
     ptr = 0           # the field's I/O pointer as gd_seek(3)/gd_putdata(3) define it (file coordinates)
     written = []      # for text: which samples are real (non-pad) values
     sought = None     # target of the most recent read-mode gd_seek, until the next write
+    lastput = False   # the previous operation was a write (or a query after one): the data file is open for writing
+    queried = False   # a gd_nframes query came since the last write
     for _ in range(nops):
         r = rng.random()
+        if lastput and a and ptr is not None and rng.random() < 0.12:
+            # gd_nframes right after a write (the field is the reference field and open for writing): a query; the data
+            # written so far counts, and the I/O pointer stays where the write left it
+            ops.append(("N", len(a), ptr)); queried = True
+            continue
+        if r >= 0.62 and a:
+            lastput = False
         if r < 0.62 or not a:
             n = rng.choice([1, 1, 2, 3, 5, 9, 17])
             L = len(a)
@@ -111,8 +120,9 @@ def gen_history(rng, t, enc, nops):
             if sought is not None and rng.random() < 0.5:
                 p = sought          # a write exactly where the last read-mode gd_seek went
             sought = None
+            lastput = True
             here = False
-            if enc != "text" and a and ptr is not None and rng.random() < 0.15:      # (a field without a data file has no I/O position yet)
+            if enc != "text" and a and ptr is not None and rng.random() < (0.6 if queried else 0.15):      # (a field without a data file has no I/O position yet)
                 p = ptr; here = True      # GD_HERE: the write lands at the I/O pointer
             mixed = rng.random() < 0.2 and not here
             if enc == "text":
@@ -124,6 +134,7 @@ def gen_history(rng, t, enc, nops):
                 vals = [rng.randint(0, 3) for _ in range(n)]
                 data = [tuple(small_to(t, v)) for v in vals]
                 ops.append(("P", p, data, tc, [x for v in vals for x in small_to(tc, v)], False))
+                queried = False
                 a = array_write(a, p, data, zero)
                 ptr = p + len(data)
                 continue
@@ -154,6 +165,7 @@ def gen_history(rng, t, enc, nops):
                     cur = v
                     data.append(v)
             ops.append(("P", p, data, None, [x for v in data for x in v], here))
+            queried = False
             oldlen = len(a)
             a = array_write(a, p, data, zero)
             ptr = p + len(data)
@@ -265,6 +277,9 @@ def main():
                     sc.append("get a %d %d 0 %d" % (t, off, n))
                     expect.append(("get", [x for v in a for x in v]))
                     ml.append("G 0 %d" % n)
+                elif op[0] == "N":
+                    # the library closes the field (the pending write is finished) and seeks back in read mode
+                    sc.append("nframes"); expect.append(("nframes", off + op[1] // spf)); ml += ["F", "K %d" % op[2]]
                 elif op[0] == "K":
                     sc.append("seek a %d %d 0" % (off, op[1])); expect.append(("seek", off * spf + op[1], off * spf + min(op[1], op[2]))); ml.append("K %d" % op[1])
                 elif op[0] == "F":
@@ -339,6 +354,8 @@ def main():
                     bad = bad or "%s -> %s" % (line[:120], got)
             elif ex[0] == "rc0" and not got.endswith(" 0"):
                 bad = bad or "%s -> %s" % (line, got)
+            elif ex[0] == "nframes" and got != "nframes %d 0" % ex[1]:
+                bad = bad or "%s -> %s (expected %d frames)" % (line, got, ex[1])
             elif ex[0] == "seek" and got not in ("seek %d 0" % ex[1], "seek %d 0" % ex[2]):
                 bad = bad or "%s -> %s (expected position %d, or the end of the field %d)" % (line, got, ex[1], ex[2])
             elif ex[0] == "get":
@@ -707,6 +724,68 @@ def main():
     for key_, l_ in sorted(mpbad.items()):
         scm, fm_, why_ = l_[0]
         derived_bad.append((key_, "MPLEX write-through (%d cases): %s ; script %s" % (len(l_), why_, " ; ".join(scm[1:5])[:300])))
+
+    # repeated writes through invertible derived fields on ONE handle: LINTERP over generated monotonic tables (rising and
+    # falling y, curved: the slope changes from segment to segment), first-order LINCOM / POLYNOM, RECIP, all over the same
+    # RAW field; 3..6 puts per case in random order of kinds, so every kind is also written a second and third time after
+    # whatever it cached on the first.  All numbers are dyadic rationals of small magnitude: double arithmetic is exact.
+    nrw = 24 if not chk.thorough else 300
+    rwbad = {}
+    for ri in range(nrw):
+        nk = rng.randint(3, 6)
+        falling = rng.random() < 0.6
+        xk = [float(rng.randint(-8, 8))]; yk = [float(rng.randint(-16, 16))]
+        for _ in range(nk - 1):
+            dx = rng.choice([1.0, 2.0, 4.0, 8.0]); sl = rng.choice([0.5, 1.0, 2.0, 4.0])
+            xk.append(xk[-1] + dx); yk.append(yk[-1] + (-sl if falling else sl) * dx)
+        sa = rng.choice([2.0, 4.0, 0.5, -2.0, -0.25]); sb = float(rng.randint(-6, 6))
+        pc0 = float(rng.randint(-6, 6)); pc1 = rng.choice([2.0, -4.0, 0.5, 8.0])
+        dv = rng.choice([8.0, -16.0, 2.0])
+        dr = os.path.join(root, "rw%d" % ri); os.mkdir(dr)
+        open(os.path.join(dr, "format"), "w").write("/ENCODING none\nr RAW FLOAT64 1\nli LINTERP r t.lut\nlc LINCOM r %r %r\npo POLYNOM r %r %r\nrc RECIP r %r\n" % (
+            sa, sb, pc0, pc1, dv))
+        open(os.path.join(dr, "t.lut"), "w").write("".join("%r %r\n" % (x_, y_) for x_, y_ in zip(xk, yk)))
+        nr = 24
+        rvals = [1.0] * nr
+        scr = ["open %s rw" % dr, "put r 9 0 0 %d %s" % (nr, " ".join("%x" % f64(1.0) for _ in range(nr)))]
+        kinds = ["li", "li", rng.choice(["lc", "po", "rc"])] + [rng.choice(["li", "li", "lc", "po", "rc"]) for _ in range(rng.randint(0, 3))]
+        rng.shuffle(kinds)
+        for kd in kinds:
+            k_ = rng.randint(1, 4); p_ = rng.randint(0, nr - k_)
+            ys_, xs_ = [], []
+            for _ in range(k_):
+                if kd == "li":
+                    sg = rng.randrange(nk - 1)
+                    if rng.random() < 0.5:
+                        y_, x_ = yk[sg], xk[sg]
+                    else:
+                        y_, x_ = (yk[sg] + yk[sg + 1]) / 2, (xk[sg] + xk[sg + 1]) / 2
+                elif kd == "lc":
+                    x_ = float(rng.randint(-20, 20)) / 4; y_ = sa * x_ + sb
+                elif kd == "po":
+                    x_ = float(rng.randint(-20, 20)) / 4; y_ = pc0 + pc1 * x_
+                else:
+                    x_ = rng.choice([1.0, -2.0, 4.0, 0.5, -0.25]); y_ = dv / x_
+                ys_.append(y_); xs_.append(x_)
+            scr.append("put %s 9 0 %d %d %s" % (kd, p_, k_, " ".join("%x" % f64(y_) for y_ in ys_)))
+            rvals[p_:p_ + k_] = xs_
+        scr += ["get r 9 0 0 %d" % (nr + 2), "close"]
+        rcr, outr = vlib.sh([exe], inp=("\n".join(scr) + "\n").encode(), timeout=60)
+        rr = outr.strip().split("\n")
+        chk.cov["evaluations"] += 1
+        gr = gdlib.parse_get(rr[-2]) if len(rr) == len(scr) else None
+        puts_ok = len(rr) == len(scr) and all(l.split()[2:] == ["0"] for l in rr[1:-2])
+        if rcr != 0 or gr is None or not puts_ok or gr[2] != [f64(v) for v in rvals]:
+            first = next((i for i in range(nr) if gr is not None and len(gr[2]) == nr and gr[2][i] != f64(rvals[i])), None)
+            rwbad.setdefault("putdata/derived-repeated/%s" % ("falling-table" if falling else "rising-table"), []).append(
+                (scr, "table %s ; r reads %s, inverting the read formulas gives %s%s" % (
+                    " ".join("(%g,%g)" % (x_, y_) for x_, y_ in zip(xk, yk)), (rr[-2][:200] if len(rr) >= 2 else outr[-100:]),
+                    " ".join("%g" % v for v in rvals), "" if first is None else " (first difference at sample %d)" % first)))
+        else:
+            nontriv.add(("rw", tuple(xk), tuple(yk), tuple(kinds), tuple(rvals)))
+    for key_, l_ in sorted(rwbad.items()):
+        scr, why_ = l_[0]
+        derived_bad.append((key_, "repeated writes through LINTERP/LINCOM/POLYNOM/RECIP on one handle (%d cases): %s ; script %s" % (len(l_), why_, " ; ".join(scr[2:-2])[:400])))
 
     # first-order LINCOM / POLYNOM, RECIP, monotonic LINTERP (values chosen so that double arithmetic is exact)
     d2 = os.path.join(root, "der2"); os.mkdir(d2)
